@@ -473,7 +473,10 @@ def t_deferred_branch(facts, res, tier):
                                 if pend or own:
                                     bpp.add(L[6:])
                             if pend or own:
-                                branch(L, set(pend) | ({"raised while %s evaluates its operands" % g} if own else set()), "%s(.., %s)" % (g, L), ev["node"])
+                                # work already pending when the callee is entered (left over from an earlier expression of this
+                                # function) is a different defect from work the callee's own operands raise: separate keys
+                                carried = "+carried" if pend else ""
+                                branch(L, set(pend) | ({"raised while %s evaluates its operands" % g} if own else set()), "%s%s(.., %s)" % (g, carried, L), ev["node"])
                     # (2) a purge certainly emitted by the callee, between an open branch and its label
                     if g == PURGE_FN or sure_purge[g]:
                         mp = True
@@ -882,6 +885,43 @@ def t_second_pass(facts, res, tier):
                 key = "T-SECOND-PASS:nested:%s(no such parameter)" % g
             cur = nested.setdefault(key, {"ok": okk, "node": ev["node"], "paths": 0})
             cur["paths"] += 1
+    # an operand evaluated a second time on the same path (the function's own high-byte pass of a 16-bit compound assignment)
+    # is evaluated with second_time = true
+    from walker import Const as _C2
+    reeval = {}
+    for kind, val, st in genmodel.fn_paths(facts, fn):
+        seen_ops = {}
+        for ev in st.events:
+            if ev["kind"] != "call" or ev["callee"] not in EVALUATORS:
+                continue
+            g = ev["callee"]
+            gfn = facts.fn(g, genmodel.GEN_QUAL)
+            gp = [p["name"].replace("mut ", "").strip() for p in gfn["params"] if p["name"] != "self"]
+            if "second_time" not in gp or not ev["args"]:
+                continue
+            operand = repr(ev["args"][0])
+            a = ev["args"][gp.index("second_time")] if gp.index("second_time") < len(ev["args"]) else None
+            if (g, operand) in seen_ops:
+                if isinstance(a, _C2):
+                    dom = {a.v}
+                elif isinstance(a, Sym):
+                    dom = genmodel.domain_of(st, a, facts, universe=[True, False]) or {True, False}
+                else:
+                    dom = {True, False}
+                key = "T-SECOND-PASS:re-evaluation:%s(%s)" % (g, re.sub(r"[^A-Za-z0-9_.]", "", operand)[:30])
+                cur = reeval.setdefault(key, {"ok": True, "node": ev["node"], "paths": 0, "arg": None})
+                cur["paths"] += 1
+                if dom != {True}:
+                    cur["ok"] = False
+                    cur["node"] = ev["node"]
+                    cur["arg"] = expr_text(ev["node"]["args"][gp.index("second_time")]) if gp.index("second_time") < len(ev["node"].get("args", [])) else "?"
+            seen_ops[(g, operand)] = True
+    for key, d in sorted(reeval.items()):
+        res.inst(key, True, {"paths": d["paths"]})
+        if not d["ok"]:
+            res.fail(key, facts.where(fn, d["node"]),
+                     "generate_expr evaluates the same operand a second time on one path (its own high-byte pass) with second_time = `%s`, which is not "
+                     "known to be true there: a function call or increment inside the operand is emitted twice (`arr16[X] += f()` calls f twice)" % d["arg"])
     for key, d in sorted(nested.items()):
         res.inst(key, True, {"paths": d["paths"]})
         if not d["ok"]:
